@@ -134,7 +134,7 @@ def check_ref_from_ptr(ctx, F, hty, size_field_off, rule="A2"):
                     regions.add(x)
         if len(regions) == 1:
             rs = next(iter(regions))
-            good = is_region(rs) and c14.is_ref_from_slice_of(ex, hty, rs)
+            good = is_region(rs) and c14.is_ref_from_slice_of(ex, hty, rs, F)
             how = "ref_from_slice expanded in place over %s" % G.show(rs)[:120]
     return ctx.check(good, rule, "ref_from_ptr<%s>" % hty.split("::")[-1],
                      "ref_from_ptr views exactly [ptr, ptr + zext(raw declared size)) and hands it to ref_from_slice (errors of C14's chain)",
